@@ -11,6 +11,7 @@ package main
 
 import (
 	"bufio"
+	"context"
 	"bytes"
 	"encoding/json"
 	"flag"
@@ -19,6 +20,7 @@ import (
 	"os/exec"
 	"path/filepath"
 	"runtime"
+	"runtime/debug"
 	"runtime/pprof"
 	"sort"
 	"strconv"
@@ -26,6 +28,7 @@ import (
 	"syscall"
 	"time"
 
+	"verif/gen"
 	"verif/props"
 	"verif/shrink"
 	"verif/sim"
@@ -55,6 +58,28 @@ var (
 func main() {
 	flag.Parse()
 	sim.Install()
+	// a runaway recursion must die quickly and loudly, not eat the machine
+	debug.SetMaxStack(256 << 20)
+	if !props.RaceEnabled {
+		var lim syscall.Rlimit
+		lim.Cur, lim.Max = 12<<30, 12<<30
+		_ = syscall.Setrlimit(syscall.RLIMIT_AS, &lim)
+	}
+	for _, pth := range []*string{fReplay, fSingleOp, fOut, fVerifDir, fEventLog, fCPUProf} {
+		if *pth != "" {
+			if a, err := filepath.Abs(*pth); err == nil {
+				*pth = a
+			}
+		}
+	}
+	if err := os.MkdirAll(gen.RootDir, 0o755); err != nil {
+		fmt.Fprintln(os.Stderr, "simrun: cannot create the simulated working directory:", err)
+		os.Exit(2)
+	}
+	if err := os.Chdir(gen.RootDir); err != nil {
+		fmt.Fprintln(os.Stderr, "simrun:", err)
+		os.Exit(2)
+	}
 	props.SelfExe, _ = os.Executable()
 	props.VerifDir = *fVerifDir
 	props.LoadKnownFindings(filepath.Join(*fVerifDir, "known_findings.json"))
@@ -159,6 +184,7 @@ type WorkerResult struct {
 	FirstSeeds   []uint64          `json:"first_seeds"`
 	Funcs        map[string]int64  `json:"funcs,omitempty"`
 	Infra        string            `json:"infra,omitempty"`
+	Max          map[string]float64 `json:"max,omitempty"`
 }
 
 type ViolationReport struct {
@@ -238,8 +264,24 @@ func workerMain() int {
 				}
 			}
 		}
+		for _, sg := range v.Sigs {
+			res.Signatures[sg]++
+		}
+		if len(v.Sigs) > 0 && len(res.Samples) < 2 && i > 2 {
+			if b, err := json.Marshal(sc); err == nil && len(b) < 12000 {
+				res.Samples = append(res.Samples, b)
+			}
+		}
 		for _, pr := range v.Probes {
 			res.Probes[pr]++
+		}
+		for k, x := range v.Max {
+			if res.Max == nil {
+				res.Max = map[string]float64{}
+			}
+			if x > res.Max[k] {
+				res.Max[k] = x
+			}
 		}
 		for k, n := range v.Faults {
 			res.Faults[k] += n
@@ -326,7 +368,9 @@ func reportViolation(p props.Property, sc *props.Scenario, v *props.Verdict) (Vi
 }
 
 func freshReplayFails(file string) bool {
-	cmd := exec.Command(props.SelfExe, "-replay", file, "-verif", *fVerifDir)
+	ctx, cancel := context.WithTimeout(context.Background(), 180*time.Second)
+	defer cancel()
+	cmd := exec.CommandContext(ctx, props.SelfExe, "-replay", file, "-verif", *fVerifDir)
 	cmd.Env = append(os.Environ(), "GORACE=halt_on_error=1 exitcode=66")
 	var out bytes.Buffer
 	cmd.Stdout = &out
@@ -390,9 +434,11 @@ func parentMain() int {
 			continue
 		}
 		file := filepath.Join(*fVerifDir, kf.Replay)
-		cmd := exec.Command(props.SelfExe, "-replay", file, "-verif", *fVerifDir)
+		ctx, cancel := context.WithTimeout(context.Background(), 180*time.Second)
+		cmd := exec.CommandContext(ctx, props.SelfExe, "-replay", file, "-verif", *fVerifDir)
 		cmd.Env = append(os.Environ(), "GORACE=halt_on_error=1 exitcode=66")
 		out, err := cmd.CombinedOutput()
+		cancel()
 		failed := false
 		if ee, ok := err.(*exec.ExitError); ok {
 			c := ee.ExitCode()
@@ -524,6 +570,14 @@ func parentMain() int {
 		for k, n := range r.Funcs {
 			agg.Funcs[k] += n
 		}
+		for k, x := range r.Max {
+			if agg.Max == nil {
+				agg.Max = map[string]float64{}
+			}
+			if x > agg.Max[k] {
+				agg.Max[k] = x
+			}
+		}
 		for _, k := range r.OrderSigSet {
 			orderSigs[k] = true
 		}
@@ -599,6 +653,7 @@ func parentMain() int {
 		"distinct_map_order_sets":  len(orderSigs),
 		"distinct_schedules":       len(schedSigs),
 		"probes":                   agg.Probes,
+		"maxima":                   agg.Max,
 		"probes_stuck_at_zero":     zeroProbes,
 		"inconclusive_runs":        agg.Inconclusive,
 		"known_findings_printed":   knownPrinted,
